@@ -75,6 +75,8 @@ class Monoidal(Cls):
         self.D, self.m, self.cat = monoidal.Diagram, monoidal, cat
 
     def ty(self, spec):
+        if spec and all(n == 1 and type(n) is int for n, _ in spec):
+            return self.m.PRO(len(spec))           # a PRO object, as the default domain is
         return self.m.Ty(*[self.cat.Ob(n) for n, _ in spec])
 
     def default_ty(self, n):
@@ -92,6 +94,8 @@ class Rigid(Cls):
         self.D, self.m = rigid.Diagram, rigid
 
     def ty(self, spec):
+        if spec and all(n == 1 and type(n) is int and z == 0 for n, z in spec):
+            return self.m.PRO(len(spec))           # a PRO object, as the default domain is
         return self.m.Ty(*[self.m.Ob(n, z) for n, z in spec])
 
     def distinct(self, n, rng):
@@ -273,7 +277,39 @@ def expected_array(cls, dom_spec, perm):
 
 
 def is_perm(p):
-    return sorted(p) == list(range(len(p)))
+    """The request list is a permutation of range(len(p)) (ints only)."""
+    return all(type(x) is int for x in p) and sorted(p) == list(range(len(p)))
+
+
+def model_int(x):
+    """How an entry of the request list is sent to the model (`List Int`): an int as itself; a
+    hashable entry that equals no int (None, a str, a non-integral float, a tuple) as -1 — like
+    -1 it is a member of no `range(n)`, which is all the code under test asks of an entry."""
+    return x if type(x) is int else -1
+
+
+def defect_tags(p, dl):
+    """Names of the defects of a request (list, domain length | None), for the input counts:
+    (perm defects, relation of the domain to the list, duplicates meet a domain of exactly the
+    number of distinct values)."""
+    ints = [x for x in p if type(x) is int]
+    tags = []
+    if len(set(p)) < len(p):
+        tags.append("dup")
+    if any(x >= len(p) for x in ints):
+        tags.append("range")
+    if any(x < 0 for x in ints):
+        tags.append("neg")
+    if len(ints) < len(p):
+        tags.append("nonint")
+    if dl is None:
+        rel = "default"
+    elif dl == len(p):
+        rel = "len"
+    else:
+        rel = "len%+d" % max(-4, min(4, dl - len(p)))
+    compact = dl is not None and dl != len(p) and dl == len(set(p))
+    return "+".join(tags) or "genuine", rel, compact
 
 
 def involutive(p):
@@ -307,6 +343,107 @@ def malformed_perm(rng, n):
     if kind == "short_dom" and n >= 1:
         return p, n - rng.randint(1, n), kind
     return p, n + rng.randint(1, 2), "long_dom"
+
+
+NONINT = [None, "a", "0", 0.5, (0,)]
+
+# pinned witnesses of the combined region: duplicates whose values are exactly range(k) with an
+# explicitly given domain of length k (each defect alone is a different, separately refused case)
+PINNED_COMBOS = [([0, 1, 1], 2), ([1, 0, 0], 2), ([0, 0], 1), ([2, 0, 1, 2, 1, 0], 3),
+                 ([0, 1, 2, 0], 3), ([1, 1, 1], 1), ([0, 1, 1], 3), ([0, 2, 2], 2),
+                 ([1, 0], 3), ([1, 0], 1), ([0, 1, 3], 3), ([0, 1, 3], 4), ([-1, 0], 1),
+                 ([0], 0), ([], 1), ([0, None], 1), ([0, "1"], 2)]
+
+
+def surjection(rng, n, k):
+    """A list of length n whose set of values is exactly range(k), 1 <= k <= n."""
+    p = list(range(k)) + [rng.randrange(k) for _ in range(n - k)]
+    rng.shuffle(p)
+    return p
+
+
+DEFECTS = ["dup", "range", "neg", "nonint", "drop", "append"]
+
+
+def defective_perm(rng, n, kinds):
+    """A permutation of range(n) with the named defects applied in turn: duplicate an entry,
+    push an entry out of range, make one negative, replace one by a non-int, drop an entry (the
+    rest then skips a value or is a shorter permutation), insert a further entry."""
+    p = list(range(n))
+    rng.shuffle(p)
+    for kind in kinds:
+        m = len(p)
+        if kind == "dup" and m >= 2:
+            i, j = rng.sample(range(m), 2)
+            p[i] = p[j]
+        elif kind == "range" and m >= 1:
+            p[rng.randrange(m)] = m + rng.randint(0, 2)
+        elif kind == "neg" and m >= 1:
+            p[rng.randrange(m)] = -rng.randint(1, m)
+        elif kind == "nonint" and m >= 1:
+            p[rng.randrange(m)] = rng.choice(NONINT)
+        elif kind == "drop" and m >= 1:
+            del p[rng.randrange(m)]
+        else:
+            p.insert(rng.randrange(m + 1), rng.randint(0, m))
+    return p
+
+
+def dom_lengths(p):
+    """Every interesting length of an explicitly given domain for the list p, and None (omitted):
+    len(p), len(p) -3..+3, the number of distinct values and its neighbours, 0."""
+    n, d = len(p), len(set(p))
+    out = [None]
+    for x in [n, d, d - 1, d + 1, 0] + [n + e for e in (-3, -2, -1, 1, 2, 3)]:
+        if x >= 0 and x not in out:
+            out.append(x)
+    return out
+
+
+def combo_requests(cls, rng, quick):
+    """Requests whose list and domain are defective in COMBINATION (and the valid cells of the
+    same grid): list x domain length x calling convention (permutation with explicit / omitted /
+    PRO domain, permute on an identity, permute on a box)."""
+    reqs = []
+    k = 0
+
+    def cell(p, dl):
+        nonlocal k
+        k += 1
+        if dl is None:
+            reqs.append(("perm", list(p), None))
+            return
+        dom = cls.distinct(dl, rng)
+        if cls.name in ("monoidal", "rigid") and k % 3 == 0:
+            dom = [(1, 0)] * dl                     # an explicit PRO(dl)
+        reqs.append(("perm", list(p), dom))
+        reqs.append(("permute", list(p), dom))
+        if cls.name in ("monoidal", "rigid") and k % 4 == 0:
+            cod = list(dom) if k % 8 else list(reversed(dom))
+            reqs.append(("permute_box", list(p), dom, cod))
+
+    # every list over range(n) of length n <= 3 (thorough 4) with every domain length 0..n+2
+    for n in range(0, (3 if quick else 4) + 1):
+        for p in itertools.product(range(n), repeat=n):
+            for dl in [None] + list(range(0, n + 3)):
+                cell(p, dl)
+    for p, dl in PINNED_COMBOS:
+        cell(p, dl)
+    # seeded longer lists: every single defect and every unordered pair of defects (thorough:
+    # ordered pairs and seeded triples too), lists whose values are exactly range(k), k < n —
+    # each with every interesting domain length
+    combos = [(a,) for a in DEFECTS] + list(itertools.combinations_with_replacement(DEFECTS, 2))
+    if not quick:
+        combos += list(itertools.permutations(DEFECTS, 2))
+        combos += [tuple(rng.choice(DEFECTS) for _ in range(3)) for _ in range(60)]
+    lists = [defective_perm(rng, rng.randint(3, 8), kinds) for kinds in combos]
+    for _ in range(8 if quick else 80):
+        n = rng.randint(3, 8)
+        lists.append(surjection(rng, n, rng.randint(1, n - 1)))
+    for p in lists:
+        for dl in dom_lengths(p):
+            cell(p, dl)
+    return reqs
 
 
 def build_cases(tier, rng, classes):
@@ -398,6 +535,9 @@ def build_cases(tier, rng, classes):
             if op == "perm" and k % 7 == 6 and why in ("dup", "range", "neg", "gap"):
                 dom = None                         # non-permutation with the default domain
             cases.append((cls.name, (op, p, dom)))
+        # malformed in combination: duplicates x domain length, out of range x wrong length, ...
+        for req in combo_requests(cls, crng, quick):
+            cases.append((cls.name, req))
     # one list object, two requests: the same Python list is handed to `permutation` of one
     # class and then, untouched by the harness, to `permutation` of the next class (and once
     # more to the first class) on other domains.  Each request is checked like any other
@@ -426,7 +566,7 @@ def model_lines(cls, req):
     if op == "swap":
         e = tok_expr(("swap", req[1], req[2]))
         return "eval " + e, "wireperm " + e
-    p, dom = req[1], req[2]
+    p, dom = [model_int(x) for x in req[1]], req[2]
     if dom is None:
         dom = cls.default_dom(len(p))
     if op == "perm":
@@ -471,15 +611,25 @@ def run(tier, seed, replay=None):
                 "permutation of length <= %d (thorough, length 7, circuit: a seeded third) "
                 "plus random lengths <= 10, with pairwise distinct wire types where the class has "
                 "them (monoidal, rigid, tensor), in each of monoidal/rigid/tensor/circuit/zx; "
-                "~10%% malformed requests; every permutation() call receives the caller's list "
+                "~10%% singly malformed requests, plus a refusal grid of requests defective in "
+                "COMBINATION: every list over range(n) of length n <= %d with every domain length "
+                "0..n+2 and the omitted domain, and seeded lists of length 3-8 with every single "
+                "and every pair of defects (duplicate, out of range, negative, non-int entry, entry "
+                "dropped, entry inserted) or with values exactly range(k), k < n, each with domain "
+                "lengths len, len-3..len+3, #distinct-1..#distinct+1, 0 and omitted, through "
+                "permutation() (Ty / PRO / omitted domain), permute() on an identity and on a box; "
+                "every permutation() call receives the caller's list "
                 "object itself, which must read the same afterwards, and groups of three requests "
                 "(two classes, three domains) share ONE list object; permute() on all permutations "
                 "of 3 wires and non-involutive ones of 4-5 wires; non-trivial = a non-involutive permutation of length "
                 ">= 3, or a swap of widths >= 1 with >= 3 wires; distinct by (class, request)"
-                % ((5, 5) if quick else (6, 7)))
+                % ((5, 5, 3) if quick else (6, 7, 4)))
     rep.partial = []
     rep.assumptions = [
-        "perm is a Python list of ints (tuples, bools and floats are outside the model)",
+        "perm is a Python list; its entries are ints, or (refusal grid only) hashable values that "
+        "equal no int (None, str, 0.5, a tuple), which are sent to the model as -1: like -1 they "
+        "lie in no range(n); bools, integral floats, unhashable entries and tuples as perm are "
+        "outside the model",
         "the per-class factories differ from monoidal.Diagram.swap/permutation only in "
         "ar_factory/swap_factory (tied by the field-by-field comparison of every class)",
         "array evaluation (tensor, circuit) is an oracle-only clause; tensors beyond 400000 "
@@ -520,6 +670,11 @@ def check_case(rep, cls, req, line, model_eval, model_wires, shared=None):
             rep.count("perm_list_object_reused")
             case["note"] = ("the caller's list object was already passed to an earlier "
                             "permutation() call; it now reads %r" % (arg,))
+    if op != "swap" and req[2] is not None:
+        try:
+            case["dom"] = repr(cls.ty(req[2]))     # the object handed over (Ty / PRO / Dim)
+        except Exception as e:
+            case["dom"] = "unbuildable: " + repr(e)[:100]
     try:
         d = run_real(cls, req, arg)
         real = "ok " + ser_diagram(d)
@@ -560,6 +715,20 @@ def check_case(rep, cls, req, line, model_eval, model_wires, shared=None):
         n = len(p)
         nontrivial = valid and n >= 3 and not involutive(p)
         rep.count("perm_len:%d" % n if valid else "malformed")
+        if not valid:
+            tags, rel, compact = defect_tags(p, None if default else len(dom_spec))
+            rep.count("malformed_list:" + tags)
+            rep.count("malformed_dom:" + rel)
+            rep.count("malformed_op:" + op)
+            if (0 if tags == "genuine" else len(tags.split("+"))) \
+                    + (rel not in ("default", "len")) >= 2:
+                rep.count("malformed_combined")
+            if compact:
+                # duplicates AND an explicit domain exactly as long as the number of distinct
+                # values: each of the two refusal conditions alone would let this through
+                rep.count("malformed_dup_x_dom=distinct")
+            if dom_spec and not default and all(m == 1 and type(m) is int for m, _ in dom_spec):
+                rep.count("malformed_PRO_dom")
     rep.case(key, nontrivial)
     if nontrivial and rep.evaluations % 97 == 0:
         rep.sample(dict(cls=cls.name, request=repr(req)[:200], answer=real[:200]))
@@ -570,7 +739,18 @@ def check_case(rep, cls, req, line, model_eval, model_wires, shared=None):
         same = req[2] == req[3]
         rep.count("permute_box:%s:%s" % ("cod==dom" if same else "cod!=dom",
                                          "ok" if exc is None else err_class(exc)))
-        if exc is None:
+        if not valid:
+            # a non-permutation / length mismatch on f.dom is refused whatever f.cod is
+            if exc is None:
+                rep.fail("accepted_non_permutation:%s:%s" % (cls.name, op), case,
+                         "f.permute(*%r) with len(f.dom) = %d was accepted: %s" % (
+                             p, len(dom_spec), real[:200]))
+            elif not isinstance(exc, ValueError):
+                rep.fail("wrong_refusal:" + cls.name, case,
+                         "refused with %s instead of ValueError" % type(exc).__name__)
+            if model_wires != "err value":
+                rep.disagree("wireperm", case, "err value (expected refusal)", model_wires)
+        elif exc is None:
             fcod = cls.ty(req[3])
             for i in range(n):
                 if d.cod[p[i]:p[i] + 1] != fcod[i:i + 1]:
@@ -585,8 +765,11 @@ def check_case(rep, cls, req, line, model_eval, model_wires, shared=None):
     if not valid:
         # refusal: ValueError, nothing else
         if exc is None:
-            rep.fail("accepted_non_permutation:" + cls.name, case,
-                     "a non-permutation / length mismatch was accepted: " + real[:200])
+            rep.fail("accepted_non_permutation:%s:%s" % (cls.name, op), case,
+                     "%r is not a permutation of range(%d) (list: %s; domain %s) but was "
+                     "accepted: %s" % (p, len(dom_spec), tags,
+                                       "omitted" if default else "of length %d" % len(dom_spec),
+                                       real[:200]))
         elif not isinstance(exc, ValueError):
             rep.fail("wrong_refusal:" + cls.name, case,
                      "refused with %s instead of ValueError" % type(exc).__name__)
